@@ -11,9 +11,9 @@
      - one Out list per component; with SCCEdges (bit 1 of flags) they satisfy [scc_edges_spec] (Out(c) =
        exactly the OTHER components some edge of c enters, once each), without it they are all empty.
    The executable checkers are eliminated with Proofs/Scc.v.  Closed under the global context. *)
-From Coq Require Import FMapPositive Permutation.
+From Coq Require Import FMapPositive Permutation Sorted.
 From MM Require Import Base.Num Base.GCGraph Base.GCReach Spec.Scc Model.Scc Proofs.Scc Proofs.Order
-  Check.C18 Proofs.CheckBase Proofs.CheckC18Base.
+  Check.C18 Proofs.CheckBase Proofs.CheckC18Base Proofs.Graph Proofs.TarjanOrder.
 Local Open Scope Z_scope.
 
 Lemma nonneg_lists : forall ls, existsb (existsb (fun x => x <? 0)) ls = false -> map ZsN (map NsZ ls) = ls.
@@ -32,6 +32,12 @@ Proof.
   - rewrite (IH _ H2 k c Hk). do 2 f_equal. lia.
 Qed.
 
+Lemma lists_eqb_eq : forall a b, lists_eqb a b = true -> a = b.
+Proof.
+  induction a as [|x a IH]; intros [|y b] H; cbn in H; try discriminate; [reflexivity|].
+  apply andb_prop in H. destruct H as [H1 H2]. apply Ns_eqb_eq in H1. subst y. f_equal. auto.
+Qed.
+
 Definition scc_case_ok (rest : list Z) : Prop :=
   exists g flags compsN hascof cof outsN,
     rest = enc_graph g ++ flags :: 0 :: enc_Zss (map ZsN compsN) ++ hascof :: enc_Zs cof ++ enc_Zss (map ZsN outsN) ++ 1 :: enc_graph g /\
@@ -42,7 +48,8 @@ Definition scc_case_ok (rest : list Z) : Prop :=
     (flags <> 0 -> length cof = length g /\
        forall c v, In v (comp_at compsN c) -> nth (N.to_nat v) cof (-1) = Z.of_nat c) /\
     length outsN = length compsN /\
-    (if Z.testbit flags 1 then scc_edges_spec g compsN outsN else Forall (fun l => l = []) outsN).
+    (if Z.testbit flags 1 then scc_edges_spec g compsN outsN else Forall (fun l => l = []) outsN) /\
+    Forall (StronglySorted N.lt) outsN.
 
 Theorem check_scc_sound : forall l c v r,
   check_scc l = Some (c :: v, r) -> c = 0 \/ c = 1 -> c = 0 /\ r = [] /\ scc_case_ok l.
@@ -54,6 +61,7 @@ Proof.
   (* pick the entries by their shape *)
   match goal with H : negb (_ || _) = true |- _ => apply Bool.negb_true_iff, Bool.orb_false_iff in H; destruct H as [Neg1 Neg2] end.
   match goal with H : scc_ok _ _ = true |- _ => rename H into Hok end.
+  match goal with H : match tarjan_run _ _ _ with Some _ => _ | None => _ end = true |- _ => rename H into Htj end.
   match goal with H : (_ =? (if _ then _ else _)) = true |- _ => apply Z.eqb_eq in H; rename H into Hhas end.
   match goal with H : (_ =? 0) || (_ && _) = true |- _ => rename H into Hcof end.
   match goal with H : negb (_ =? 0) || (length _ =? 0)%nat = true |- _ => rename H into Hcof0 end.
@@ -63,7 +71,7 @@ Proof.
   pose proof (proj1 (scc_ok_sound_complete _ _ Ewf) Hok) as Hspec.
   exists a, a0, (map NsZ a2), (if a0 =? 0 then 0 else 1), a4, (map NsZ a5).
   split; [rewrite !nonneg_lists by assumption; lay; subst; rewrite ?app_nil_r; reflexivity|].
-  split; [exact Ewf|]. split; [exact Hspec|]. split; [reflexivity|]. split; [|split; [|split]].
+  split; [exact Ewf|]. split; [exact Hspec|]. split; [reflexivity|]. split; [|split; [|split; [|split]]].
   - intros ->. cbn in Hcof0. apply Nat.eqb_eq in Hcof0. apply length_zero_iff_nil. exact Hcof0.
   - intro Hf. apply Z.eqb_neq in Hf. rewrite Hf in Hcof. cbn in Hcof. apply andb_prop in Hcof. destruct Hcof as [L M].
     apply Nat.eqb_eq in L. split; [exact L|]. intros c v Hv.
@@ -82,4 +90,40 @@ Proof.
     + apply (scc_edges_ok_sound_complete _ _ _ Ewf Hspec). exact Hedges.
     + apply Forall_forall. intros x Hx. apply in_map_iff in Hx. destruct Hx as (y & <- & Hy).
       rewrite forallb_forall in Hedges. specialize (Hedges _ Hy). apply Nat.eqb_eq in Hedges. destruct y; [reflexivity|discriminate].
+  - destruct (tarjan_run _ _ a) as [st|] eqn:Erun; [|discriminate].
+    apply andb_prop in Htj. destruct Htj as [Htj _]. apply andb_prop in Htj. destruct Htj as [_ Houts].
+    apply lists_eqb_eq in Houts. rewrite Houts. exact (tarjan_outs_ascending _ _ _ _ Erun).
+Qed.
+
+(* what the order adds to scc_edges_spec: Out(c) is determined, as a list *)
+Theorem scc_out_is_sorted_dedup : forall g comps outs, scc_edges_spec g comps outs ->
+  Forall (StronglySorted N.lt) outs ->
+  forall c l, (c < length comps)%nat -> StronglySorted N.lt l ->
+    (forall d, In d l <->
+       (N.to_nat d <> c /\ exists u v, In u (comp_at comps c) /\ In v (comp_at comps (N.to_nat d)) /\ In v (g_out g u))) ->
+    nth c outs [] = l.
+Proof.
+  intros g comps outs [Hlen Hspec] Hs c l Hc Hl Hm.
+  apply ascending_unique; [|exact Hl|].
+  - rewrite Forall_forall in Hs. apply Hs. apply nth_In. rewrite Hlen. exact Hc.
+  - intro d. rewrite Hm. exact (proj2 (Hspec c Hc) d).
+Qed.
+
+(* the three facts about the order of Out(c), grouped for Properties/C18.v: the model's lists are ascending
+   for any successor function and flag; the model's Out(c) is sort + adjacent-dedup of the popped targets,
+   which is ascending with the same members; an ascending list is determined by its members, so together
+   with scc_edges_spec the accepted Out(c) is the one ascending enumeration of the specified set *)
+Lemma scc_out_order :
+  (forall out edges g st, tarjan_run out edges g = Some st ->
+     Forall (StronglySorted N.lt) (rev_append (tj_outs st) [])) /\
+  (forall l, StronglySorted N.lt (dedup_adj (Model.Graph.isort l)) /\
+             forall z, In z (dedup_adj (Model.Graph.isort l)) <-> In z l) /\
+  (forall g comps outs, scc_edges_spec g comps outs -> Forall (StronglySorted N.lt) outs ->
+     forall c l, (c < length comps)%nat -> StronglySorted N.lt l ->
+       (forall d, In d l <->
+          (N.to_nat d <> c /\ exists u v, In u (comp_at comps c) /\ In v (comp_at comps (N.to_nat d)) /\ In v (g_out g u))) ->
+       nth c outs [] = l).
+Proof.
+  split; [exact tarjan_outs_ascending|]. split; [|exact scc_out_is_sorted_dedup].
+  intro l. split; [apply sort_dedup_ascending|]. exact (proj2 (Proofs.Tarjan.dedup_isort_spec l)).
 Qed.
